@@ -363,6 +363,16 @@ fn all_sources() -> &'static Vec<String> {
         v.push("{'a': 1 / (x - x), 'b': 1, 'c': 1} == {'a': 1, 'b': 2, 'c': 3}".to_string());
         v.push("{'k1': y, 'k2': 1 / (x - x), 'k3': x, 'k4': 0} != {'k1': x, 'k2': 1, 'k3': y, 'k4': 0}".to_string());
         v.push("[m == {'q': 1, 'a': 1 / (x - x), 'zz': 2, 'b': 7, 'k1': 2, 'k2': 2}]".to_string());
+        // every macro over a map range with bodies that fail differently per key; conversions of maps
+        for mac in ["all", "exists", "exists_one"] {
+            v.push(format!("m.{}(k, [10 / (m[k] - 1)][m[k] - 1] > 0)", mac));
+            v.push(format!("{{'p': x - x, 'q': 1, 'r': 2}}.{}(k, [10 / {{'p': x - x, 'q': 1, 'r': 2}}[k]][{{'p': x - x, 'q': 1, 'r': 2}}[k]] > 100)", mac));
+        }
+        v.push("m.reduce(a, k, a + [10 / (m[k] - 1)][m[k] - 1], 0)".to_string());
+        v.push("string(m)".to_string());
+        v.push("f'{m}'".to_string());
+        v.push("string([m, {'z': 1, 'y': x, 'w': 3}])".to_string());
+        v.push("dyn({'z': 1, 'y': x, 'w': 3}).string()".to_string());
         v
     })
 }
@@ -523,7 +533,35 @@ fn check_threads(src: &str, binds: &BTreeMap<String, V>, acc: &mut Acc) -> Vec<F
     vec![]
 }
 
+/// "The only permitted source of variation is the clock read by now() ...": how long an evaluation
+/// takes must not decide its result. One evaluation of a few seconds (8 million innermost bodies).
+fn check_long_evaluation(acc: &mut Acc) {
+    let n = 200usize;
+    let src = "l.map(a, l.map(b, l.map(c, a + b + c).size()).size()).size()";
+    let mut progs = BTreeMap::new();
+    progs.insert("main".to_string(), src.to_string());
+    let mut binds = BTreeMap::new();
+    binds.insert("l".to_string(), V::List((0..n as i64).map(V::Int).collect()));
+    let t0 = std::time::Instant::now();
+    let got = fresh_exec(&progs, &binds, "main");
+    let secs = t0.elapsed().as_secs_f64();
+    acc.case("long-evaluation", src, true, "long-evaluation");
+    acc.eval_only("long-evaluation", 1);
+    acc.sample("long-evaluation", || json!({"source": src, "list_length": n, "result": got, "seconds": secs}));
+    let want = format!("{}u", n);
+    if got != want {
+        acc.fail(Failure::new(
+            "c11:long-evaluation:wrong-result",
+            format!("{} over {} elements ran {:.1} s and gave {} instead of {}", src, n, secs, got, want),
+            json!({"kind": "long-evaluation"}),
+        ));
+    }
+}
+
 fn run(opts: &Opts, acc: &mut Acc) {
+    if !opts.is_dbg() {
+        check_long_evaluation(acc);
+    }
     // exhaustive short sequences
     if !opts.is_dbg() {
         let alpha = small_alphabet();
@@ -573,6 +611,8 @@ fn run(opts: &Opts, acc: &mut Acc) {
             "{'a': 1 / (x - 3), 'b': 1, 'c': 1, 'd': 1, 'e': 1} != {'a': 1, 'b': 2, 'c': 3, 'd': 1, 'e': 0}",
             "m == {'key0': 1 / (x - 3), 'key1': 0, 'key2': 0, 'key3': 3, 'key4': 4, 'key5': 5, 'key6': 6, 'key7': 7, 'key8': 8, 'key9': 9, 'key10': 10, 'key11': 11}",
             "[x, 1 / (x - 3)] == [0, 1]",
+            "m.all(k, [10 / m[k]][m[k]] > 0) ;; m.exists(k, [10 / m[k]][m[k]] > 0) ;; m.exists_one(k, [10 / m[k]][m[k]] > 0) ;; m.reduce(a, k, a + [10 / m[k]][m[k]], 0)",
+            "string(m) ;; f'{m}' ;; string([{'b': x, 'a': 1, 'c': 3}])",
             "s.matches('s.r') ;; s.matches('(') ;; s.matches('(') ;; s.matches('^x') ;; s.matches('s.r')",
             "'str'.matches('s.r') ;; 'str'.matches('(')",
             "timestamp(x).getHours('Europe/Berlin') ;; timestamp(x).getHours('Nowhere/Land') ;; timestamp(x).getHours('Nowhere/Land') ;; timestamp(x).getHours('+02:00')",
@@ -603,6 +643,10 @@ fn replay(_opts: &Opts, d: &Value, acc: &mut Acc) {
         for f in run_history(&ops, "replay", acc) {
             acc.fail(f);
         }
+        return;
+    }
+    if d.get("kind").and_then(|k| k.as_str()) == Some("long-evaluation") {
+        check_long_evaluation(acc);
         return;
     }
     if d.get("kind").and_then(|k| k.as_str()) == Some("threads") {
